@@ -16,7 +16,7 @@ Extraction "model.ml"
   emitsb out_ok invb
   oracle_C01 oracle_C02 oracle_C03 oracle_C04 oracle_C05 oracle_C06 oracle_C10 oracle_C11
   lex_exact s1_step s1_tail_step
-  generate_internal run_history gen_new to_signed to_unsigned utf8_encode
+  generate_internal emit_and_process run_history gen_new to_signed to_unsigned utf8_encode
   choose_index gen_range gen_uint gen_bool gen_i32 gen_i64 gen_f64 should_mutate gen_bytes gen_ascii_char
   mutate_int_one mutate_long_one mutate_float_one mutate_seq_one mutate_memo_one post_one
   mutate_int mutate_float mutate_string mutate_bytes mutate_memo_index post_process
